@@ -39,6 +39,48 @@ pub fn load_edges(path: &str) -> BTreeMap<u64, Vec<(u64, Value)>> {
     m
 }
 
+/// every key present in `want` must be present and equal (recursively) in `got`
+fn subset_mismatch(want: &Value, got: &Value, path: &str) -> Option<String> {
+    match (want, got) {
+        (Value::Object(w), Value::Object(g)) => {
+            for (k, v) in w {
+                match g.get(k) {
+                    None => return Some(format!("{}.{} missing", path, k)),
+                    Some(gv) => {
+                        if let Some(m) = subset_mismatch(v, gv, &format!("{}.{}", path, k)) {
+                            return Some(m);
+                        }
+                    }
+                }
+            }
+            None
+        }
+        (Value::Array(w), _) if w.is_empty() => None,
+        (Value::Array(w), Value::Array(g)) => {
+            // Big numbers are arrays of ints: compare whole; slot lists are arrays of objects: recurse
+            if w.iter().all(|x| x.is_number()) {
+                return if w == g { None } else { Some(format!("{} want {} got {}", path, want, got)) };
+            }
+            if w.len() != g.len() {
+                return Some(format!("{} length {} vs {}", path, w.len(), g.len()));
+            }
+            for (i, (a, b)) in w.iter().zip(g.iter()).enumerate() {
+                if let Some(m) = subset_mismatch(a, b, &format!("{}[{}]", path, i)) {
+                    return Some(m);
+                }
+            }
+            None
+        }
+        _ => {
+            if want == got {
+                None
+            } else {
+                Some(format!("{} want {} got {}", path, want, got))
+            }
+        }
+    }
+}
+
 fn emit(w: &mut impl Write, ev: &str, scn: u64) {
     writeln!(w, "{}", json!({"i": 0, "scn": scn, "ev": ev, "a": {"op": ev}, "res": "ok", "code": 0, "err": "", "label": "", "failed_ix": -1, "ts": [0], "chg": {}})).unwrap();
 }
@@ -69,10 +111,20 @@ fn walk(ex: &mut Exec, edges: &BTreeMap<u64, Vec<(u64, Value)>>, node: u64, dept
         }
         if let Some(exp) = a.get("exp").and_then(|x| x.as_str()) {
             let agree = if exp == "ok" { ok } else if exp == "err" { !ok } else { !ok && ev["err"] == exp };
+            let mut why = None;
             if !agree {
+                why = Some(format!("result: expected {} got {}", exp, if ok { "ok".to_string() } else { ev["err"].to_string() }));
+            } else if let Some(obs) = a.get("obs") {
+                why = subset_mismatch(obs, &Value::Object(ex.last.clone()), "st");
+            }
+            if let Some(wy) = why {
                 sum.drift += 1;
                 if sum.drift_samples.len() < 10 {
-                    sum.drift_samples.push(json!({"action": a, "got": if ok { json!("ok") } else { ev["err"].clone() }}));
+                    let mut a2 = a.clone();
+                    if let Some(o) = a2.as_object_mut() {
+                        o.remove("obs");
+                    }
+                    sum.drift_samples.push(json!({"action": a2, "why": wy}));
                 }
             }
         }
